@@ -2078,10 +2078,13 @@ class RedunBackendDb(RedunBackend):
                 )
             )
             try:
-                # Record special rows (File, Task) in the same transaction as the Value row. A
-                # Value that is already recorded is never revisited, so if the process died
-                # between two separate commits the special row would be missing forever.
+                # Record special rows (File, Task) and subvalues in the same transaction as the
+                # Value row. A Value that is already recorded is never revisited, so if the
+                # process died between separate commits those rows would be missing forever.
                 self._record_special_redun_values([value], [value_hash], commit=False)
+                subvalues = list(value_interface.iter_subvalues())
+                if subvalues:
+                    self._record_subvalues(subvalues, value_hash)
                 session.commit()
             except sa.exc.IntegrityError:
                 # Most likely value recorded in the meantime by another process.
@@ -2094,11 +2097,6 @@ class RedunBackendDb(RedunBackend):
                 else:
                     # something else went wrong
                     raise
-
-            # Record subvalues.
-            subvalues = list(value_interface.iter_subvalues())
-            if subvalues:
-                self._record_subvalues(subvalues, value_hash)
 
         return value_hash
 
